@@ -1,6 +1,7 @@
 package checks
 
 import (
+	"bytes"
 	"fmt"
 	"net/http"
 	"os"
@@ -65,8 +66,10 @@ func c09WorldL(backend, logger string) (w *world.W, reopen func() *world.W, clea
 }
 
 func runC09(x *mc.X) {
-	mode := mc.Pick(x, "mode", []string{"freshness", "spelling", "history"})
+	mode := mc.Pick(x, "mode", []string{"freshness", "spelling", "history", "uri-length"})
 	switch mode {
+	case "uri-length":
+		runC09Length(x)
 	case "freshness":
 		runC09Fresh(x)
 	case "spelling":
@@ -200,16 +203,34 @@ func runC09Spelling(x *mc.X) {
 	}
 }
 
-var c09Events = []string{"GET other-uri", "GET other-variant", "HEAD", "OPTIONS", "GET+Range", "GET only-if-cached", "POST other-uri 200", "POST 500", "POST 404", "GET self", "TRACE", "GET other-uri with Location: target"}
+var c09Events = []string{"GET other-uri", "GET other-variant", "HEAD", "OPTIONS", "GET+Range", "GET only-if-cached", "POST other-uri 200", "POST 500", "POST 404", "GET self", "TRACE", "GET other-uri with Location: target",
+	"earlier variant's entry evicted", "GET earlier-variant", "later variant's entry evicted"}
 
 func runC09History(x *mc.X) {
 	n := mc.Pick(x, "events", []int{1, 2, 3})
 	backend := mc.Pick(x, "backend", []string{"rec", "fscache"})
 	w, _, cleanup := c09World(backend)
 	defer cleanup()
+	// another variant is stored before the one under observation, so that the latter is not the first of the URI's index
+	answer(w, RS{Status: 200, H: H("Cache-Control", "max-age=100000", "Vary", "X-A")})
+	o0 := get(w, U, "X-A", "0")
+	logObs(x, "GET X-A=0 (an earlier variant, long-lived)", o0)
+	world.Advance(secs(1))
 	answer(w, RS{Status: 200, H: H("Cache-Control", "max-age=100000", "Vary", "X-A")})
 	o1 := get(w, U, "X-A", "1")
 	logObs(x, "GET X-A=1 (stored, long-lived)", o1)
+	// evict removes the stored response that carries tok, the way an external clean-up of the cache directory would
+	evict := func(tok string) *world.Obs {
+		if w.Conn != nil && tok != "" {
+			for _, k := range w.Conn.Keys() {
+				if v, _ := w.Conn.Peek(k); len(v) > 0 && v[0] != '[' && bytes.Contains(v, []byte(tok)) {
+					_ = w.Conn.Delete(k)
+				}
+			}
+		}
+		return &world.Obs{}
+	}
+	tok2 := ""
 	var evs []string
 	for i := 0; i < n; i++ {
 		ev := mc.Pick(x, fmt.Sprintf("event%d", i+1), c09Events)
@@ -226,6 +247,22 @@ func runC09History(x *mc.X) {
 		case "GET other-variant":
 			answer(w, RS{Status: 200, H: H("Cache-Control", "max-age=100", "Vary", "X-A")})
 			o = get(w, U, "X-A", "2")
+			if tok2 == "" {
+				tok2 = o.Tok
+			}
+		case "earlier variant's entry evicted":
+			if backend != "rec" {
+				x.Skip()
+			}
+			o = evict(o0.Tok)
+		case "later variant's entry evicted":
+			if backend != "rec" || tok2 == "" {
+				x.Skip()
+			}
+			o = evict(tok2)
+		case "GET earlier-variant":
+			answer(w, RS{Status: 200, H: H("Cache-Control", "max-age=100", "Vary", "X-A")})
+			o = get(w, U, "X-A", "0")
 		case "HEAD", "OPTIONS", "TRACE":
 			answer(w, RS{Status: 200, H: H("Cache-Control", "max-age=100")})
 			o = w.Do(world.Req(ev, U, "X-A", "1"))
@@ -261,6 +298,41 @@ func runC09History(x *mc.X) {
 	if o2.Tok != o1.Tok || len(o2.Calls) != 0 {
 		sort.Strings(evs)
 		x.Failf("entry lost after non-invalidating requests: "+strings.Join(evs, ","), "after %v the stored fresh response is no longer served: %s", evs, o2)
+	}
+}
+
+// runC09Length: a stored response is served again whatever the length of its URI (backends derive file names from it).
+func runC09Length(x *mc.X) {
+	backend := mc.Pick(x, "backend", c09Backends)
+	n := mc.Pick(x, "uri-length", []int{64, 150, 171, 189, 190, 191, 192, 200, 230, 254, 255, 256, 257, 300, 511, 512, 1000, 5000})
+	vary := x.Choose("vary", 2) == 1
+	w, reopen, cleanup := c09World(backend)
+	defer cleanup()
+	u := "http://example.com/l?"
+	for i := 0; len(u) < n; i++ {
+		u += string(rune('a' + i%26))
+	}
+	h := H("Cache-Control", "max-age=1000")
+	var rh []string
+	if vary {
+		h = append(h, [2]string{"Vary", "Accept-Language"})
+		rh = []string{"Accept-Language", "en"}
+	}
+	answer(w, RS{Status: 200, H: h})
+	o1 := get(w, u, rh...)
+	logObs(x, fmt.Sprintf("GET of a URI of %d bytes", len(u)), o1)
+	world.Advance(secs(5))
+	w2 := reopen()
+	answer(w2, RS{Status: 200, H: H("Cache-Control", "no-store")})
+	o2 := get(w2, u, rh...)
+	logObs(x, "same GET 5 s later", o2)
+	x.Nontrivial(fmt.Sprintf("uri-length/%s", backend))
+	x.State("uri-length", backend, fmt.Sprint(n, vary), obsClass(o2))
+	if o1.Tok == "" || o2.Panic != nil || o2.Err != nil {
+		return
+	}
+	if o2.Tok != o1.Tok || len(o2.Calls) != 0 {
+		x.Failf(fmt.Sprintf("fresh response for a long URI not served from the store: backend=%s", backend), "URI of %d bytes (Vary: %v): %s", len(u), vary, o2)
 	}
 }
 
